@@ -160,6 +160,21 @@ def check_label(case) -> Result:
     m_str = pt.mass(s1, use_isotope_on_mods=on_mods, monoisotopic=mono, charge=0)
     if abs(m_arg - m_str) > 1e-9:
         r.fail('labels passed as argument equal labels written in the string', 'C12/label/argument-vs-string', argument=m_arg, string=m_str, **ctx)
+    # ... for the composition too, also when a residual mass shift is turned into atoms (averagine) and the label is asked to reach them
+    import warnings
+    with warnings.catch_warnings():
+        warnings.simplefilter('ignore')
+        try:
+            c_arg = pt.comp(s0, isotope_mods=list(labels), use_isotope_on_mods=on_mods, estimate_delta=True, charge=0)
+            c_str = pt.comp(s1, use_isotope_on_mods=on_mods, estimate_delta=True, charge=0)
+        except ValueError:
+            c_arg = c_str = None
+    if c_arg is not None:
+        keys = set(c_arg) | set(c_str)
+        if any(abs(c_arg.get(k, 0) - c_str.get(k, 0)) > 1e-9 for k in keys):
+            bad = sorted(k for k in keys if abs(c_arg.get(k, 0) - c_str.get(k, 0)) > 1e-9)
+            r.fail('labels passed as argument equal labels written in the string', 'C12/label/argument-vs-string/composition',
+                   differing={k: [c_arg.get(k, 0), c_str.get(k, 0)] for k in bad[:6]}, **ctx)
     return r
 
 
